@@ -186,6 +186,9 @@ fn tokens(line: &str) -> Option<Vec<&str>> {
 
 enum Num {
     Plain(usize),
+    /// a plain decimal numeral (no sign, no leading zero) of more than 7 digits: larger than any
+    /// argument count the reference accepts, whatever its length
+    Huge,
     Negative,
     Odd, // leading '+', leading zeros, too long: unspecified
     NotANumber,
@@ -202,8 +205,11 @@ fn number(tok: &str) -> Num {
         }
         return Num::NotANumber;
     }
-    if digits.len() > 7 || (digits.len() > 1 && digits.starts_with('0')) {
+    if digits.len() > 1 && digits.starts_with('0') {
         return Num::Odd;
+    }
+    if digits.len() > 7 {
+        return if neg { Num::Negative } else { Num::Huge };
     }
     if neg {
         return if digits.bytes().all(|b| b == b'0') { Num::Odd } else { Num::Negative };
@@ -250,7 +256,7 @@ pub fn ref_iccma(bytes: &[u8]) -> RefParse {
                 }
                 match number(toks[2]) {
                     Num::Plain(k) => n = Some(k),
-                    Num::Odd => return RefParse::Unspecified("unusual number syntax in header"),
+                    Num::Odd | Num::Huge => return RefParse::Unspecified("unusual number syntax in header (or an argument count beyond 9 999 999)"),
                     Num::Negative | Num::NotANumber => return RefParse::IllFormed("bad or missing header"),
                 }
             }
@@ -267,7 +273,7 @@ pub fn ref_iccma(bytes: &[u8]) -> RefParse {
                             }
                             idx[j] = v - 1;
                         }
-                        Num::Negative => return RefParse::IllFormed("index out of range"),
+                        Num::Negative | Num::Huge => return RefParse::IllFormed("index out of range"),
                         Num::Odd => return RefParse::Unspecified("unusual number syntax"),
                         Num::NotANumber => return RefParse::Unspecified("non-numeric token in attack line"),
                     }
